@@ -39,7 +39,7 @@ def load_mutants():
                 with open(meta) as f:
                     md = json.load(f)
                 out.append({"name": label + "/" + name, "props": md.get("caught_by") or [md["property"]],
-                            "patch": patch, "note": md.get("needs", "")})
+                            "patch": patch, "note": md.get("needs", ""), "expect": md.get("expect", "catch")})
     return out
 
 
@@ -101,7 +101,8 @@ def run_check_on(d, prop, budget):
 
 def one_mutant(args):
     mut, budget, do_tests, only_props = args
-    res = {"name": mut["name"], "props": {}, "tests_pass": None, "note": mut.get("note", "")}
+    res = {"name": mut["name"], "props": {}, "tests_pass": None, "note": mut.get("note", ""),
+           "expect": mut.get("expect", "catch")}
     try:
         d = make_scratch(mut)
     except Exception as e:
@@ -151,19 +152,24 @@ def cmd_mutants(argv):
             if "error" in res:
                 line += "ERROR " + res["error"]
             for p, r in res["props"].items():
-                line += " %s:%s(%ss)" % (p, "CAUGHT" if r["exit"] == 1 else ("MISSED" if r["exit"] == 0 else "ERR%d" % r["exit"]), r["wall"])
+                line += " %s:%s(%ss)" % (p, "CAUGHT" if r["exit"] == 1 else (("EXPECTED-MISS" if res.get("expect") == "miss" else "MISSED") if r["exit"] == 0 else "ERR%d" % r["exit"]), r["wall"])
                 if r["exit"] == 1:
                     line += " [" + r["oracle"].split(" ")[0] + "]"
             print(line, flush=True)
     bad = 0
+    n_tests_fail = 0
     for res in results:
-        if "error" in res or res.get("tests_pass") is False:
+        if "error" in res:
             bad += 1
+        if res.get("tests_pass") is False:
+            n_tests_fail += 1      # informational: the repo's own tests already notice this change
+        want = 0 if res.get("expect") == "miss" else 1
         for p, r in res["props"].items():
-            if r["exit"] != 1:
+            if r["exit"] != want:
                 bad += 1
                 if "out" in r:
                     print("---- %s %s\n%s" % (res["name"], p, r["out"]))
+    print("(%d changes are also noticed by the repo's own tests)" % n_tests_fail)
     out = os.path.join(HERE, "mutants", "last_results.json")
     if not names and not only_props:
         with open(out, "w") as f:
